@@ -402,3 +402,45 @@ Lemma monotone_old_refuted :
   convert_address_old false off s n i 137 = Ok 9 /\
   convert_old s n i off 74 = Ok 10 /\ convert_old s n i off 330 = Ok 74.
 Proof. vm_compute. repeat split; reflexivity. Qed.
+
+(** ------------------------------------------------------------------ *)
+(** Injectivity (from strict monotonicity). *)
+Lemma internal_injective s n i off x y : 1 <= s -> 1 <= n ->
+  owned s n i off x -> owned s n i off y ->
+  internal_of s n off x = internal_of s n off y -> x = y.
+Proof.
+  intros Hs Hn Hox Hoy He.
+  destruct (N.lt_trichotomy x y) as [H|[H|H]]; [|exact H|].
+  - pose proof (internal_monotone s n i off x y Hs Hn Hox Hoy H). lia.
+  - pose proof (internal_monotone s n i off y x Hs Hn Hoy Hox H). lia.
+Qed.
+
+(** ------------------------------------------------------------------ *)
+(** Banked mapper and bank selector. *)
+Lemma banked_find_spec bs len x k :
+  banked_find bs len x = MIdx k <-> bs <> 0 /\ k = x / bs /\ k < len.
+Proof.
+  unfold banked_find. destruct (bs =? 0) eqn:E0.
+  - apply N.eqb_eq in E0. split; [discriminate|tauto].
+  - apply N.eqb_neq in E0. destruct (x / bs <? len) eqn:El.
+    + apply N.ltb_lt in El. split.
+      * intro H. injection H as H. subst k. auto.
+      * intros [_ [-> _]]. reflexivity.
+    + apply N.ltb_ge in El. split; [discriminate|]. intros [_ [-> Hk]]. lia.
+Qed.
+
+Lemma select_bank_eval log2 nb addr : log2 < 64 -> 1 <= nb -> nb < two63 ->
+  select_bank log2 (Z.of_N nb) addr = Some (Z.of_N (addr / 2 ^ log2 mod nb)) /\
+  addr / 2 ^ log2 mod nb < nb.
+Proof.
+  intros Hl Hn Hn63. unfold select_bank.
+  assert (E1 : (log2 <? 64) = true) by (apply N.ltb_lt; exact Hl). rewrite E1.
+  assert (Hp : 2 ^ log2 <> 0) by (apply N.pow_nonzero; discriminate).
+  assert (E2 : (2 ^ log2 =? 0) = false) by (apply N.eqb_neq; exact Hp). rewrite E2.
+  assert (Hn64 : nb < two64) by (pose proof two63_lt_two64; lia).
+  rewrite (w64z_of_N nb Hn64).
+  assert (E3 : (nb =? 0) = false) by (apply N.eqb_neq; lia). rewrite E3.
+  assert (Hm : addr / 2 ^ log2 mod nb < nb) by (apply N.mod_upper_bound; lia).
+  split; [|exact Hm]. f_equal. apply to_int64_small.
+  set (m := addr / 2 ^ log2 mod nb) in *. clearbody m. lia.
+Qed.
